@@ -4,6 +4,7 @@
   L (dictionary bytes, 0 = unlimited) and F (frame bytes, 0 = unlimited) and all restart flags.
 -/
 import Stef.Proofs.Limiter
+import Stef.Props.C14
 
 namespace Stef.Props.C08
 open Stef.Limiter
@@ -76,5 +77,25 @@ example :
     let w := ((Writer.new 40 1 0).run ops).flush
     w.frames.map (fun f => (f.flags, f.recs.map (·.1), f.bits)) = [(0, [0], 100), (1, [1], 3), (0, [2], 9)]
       ∧ w.maxDict = 60 := by decide
+
+/-- **destination_limit_in_force**: "with a dictionary size limit L ... received from the
+    destination": whenever the connect step succeeds and a writer can be created from the options
+    it returns, that writer's dictionary limit is the limit the destination advertised (the
+    default limit when the destination advertised none), for every pair of wire schemas. The
+    limit theorems above then apply with `L` = this value. (`Handshake.connect` / `writerOpts` are
+    tied to `Client.Connect` / `New<Root>Writer` by h_hs, op `hs connect`.) -/
+theorem destination_limit_in_force (client server own : List Nat) (m : Nat) (o o' : Stef.Handshake.Opts)
+    (hc : Stef.Handshake.connect client server m = some o)
+    (hw : Stef.Handshake.writerOpts own o = some o') :
+    o'.maxTotalDictSize = (if m = 0 then Gen.defaultMaxTotalDictSize else m) := by
+  have h1 := Stef.Props.C14.connect_dict_limit client server m o hc
+  have h2 := Stef.Props.C14.writer_dict_limit own o o' hw
+  rw [h1] at h2
+  exact h2
+
+/-- non-vacuity: a client ahead of the server, limit 3000. -/
+example : ∃ o o', Stef.Handshake.connect [3, 2] [2, 2] 3000 = some o ∧
+    Stef.Handshake.writerOpts [3, 2] o = some o' ∧ o'.maxTotalDictSize = 3000 := by
+  refine ⟨_, _, rfl, rfl, rfl⟩
 
 end Stef.Props.C08
